@@ -299,7 +299,11 @@ def run(tier, seed):
     v.assumptions = ["symbol keys of a list (and of the lists of a concatenation) are distinct",
                      "indices are Integer numbers", "slice::sort_by is a stable sort",
                      "item addresses handed to add_to_list are addresses of stored values"]
-    pr = vplib.prove(PID, ["Proofs/C16"], extra_targets=["Extract/ListExtract.vo"])
+    sy = vplib.sync(["storecells"])
+    for name, e in sy.get("errors", {}).items():
+        v.tie_failure("translator %s: %s" % (name, e))
+    v.coverage["tables_regenerated"] = sy.get("changed", [])
+    pr = vplib.prove(PID, ["Proofs/C16"], extra_targets=["Extract/ListExtract.vo", "Proofs/C15/Variants.vo"])
     for f in pr["failures"]:
         v.tie_failure("prove: " + f)
     v.coverage.update(vplib.proof_coverage(
